@@ -81,6 +81,8 @@ pub struct Run {
 
 pub struct Scn {
     pub horizon_ms: u64,
+    /// first label of the advertised instance's host (SRV target)
+    pub host: &'static str,
 }
 
 impl Scn {
@@ -306,7 +308,11 @@ impl Scn {
 impl Scenario for Scn {
     type Run = Run;
     fn name(&self) -> String {
-        "search-start-stop-sequences".into()
+        if self.host == "srvhost" {
+            "search-start-stop-sequences".into()
+        } else {
+            "search-start-stop-sequences-host-with-capitals".into()
+        }
     }
     fn rule(&self) -> String {
         "all sequences over {browse, browse again dropping the old receiver, dropping the receiver without a new browse, accept_unsolicited(true), browse_cache, stop_browse, resolve_hostname Foo.local. (no timeout / 1500 ms, mixed or lower case), stop_resolve_hostname in either case, shutdown, deliver PTR / PTR+TXT / full record set / address record, idle 3 s}, then silence for the horizon; states de-duplicated on daemon dump + channel bookkeeping".into()
@@ -328,7 +334,7 @@ impl Scenario for Scn {
         let now = run.w.now;
         let lix = run.w.log.len();
         run.hist.push((now, lix, op));
-        let inst = Inst::simple("inst", "srvhost", [10, 0, 0, 9]);
+        let inst = Inst::simple("inst", self.host, [10, 0, 0, 9]);
         match op {
             Op::Browse | Op::BrowseDropOld | Op::BrowseCache => {
                 if op == Op::BrowseDropOld {
@@ -475,7 +481,10 @@ impl Scenario for Scn {
         for (t, m, resolver_open) in run.metrics_after_stop.clone() {
             run.counters.push(("metrics_after_stop_checked", 1));
             let g = |k: &str| m.get(k).copied().unwrap_or(0);
-            if g("cached-ptr") != 0 || g("cached-srv") != 0 || g("cached-txt") != 0 || g("cached-addr") > 1 || (!resolver_open && g("cached-addr") > 1) {
+            // the one address record that may stay is that of FOO.local, which no browse brought in
+            let foo_alive = run.hist.iter().any(|(ht, _, op)| *op == Op::DeliverAddr && *ht <= t && t < *ht + 120_000);
+            let _ = resolver_open;
+            if g("cached-ptr") != 0 || g("cached-srv") != 0 || g("cached-txt") != 0 || g("cached-addr") > foo_alive as i64 {
                 run.viols.push(viol(
                     "C13|cache-not-forgotten-after-stop_browse",
                     format!("stop_browse at +{}: cached ptr {} srv {} txt {} addr {}", t - T0, g("cached-ptr"), g("cached-srv"), g("cached-txt"), g("cached-addr")),
@@ -502,8 +511,11 @@ pub fn check(tier: &str) -> i32 {
     let mut rep = Report::new("C13", tier, "model_checking");
     let thorough = rep.thorough();
     rep.assume("a receiver that was replaced by a later browse/resolve of the same key is only required to see nothing after the search is ended");
-    let scn = Scn { horizon_ms: 2 * 3600 * 1000 };
+    let scn = Scn { horizon_ms: 2 * 3600 * 1000, host: "srvhost" };
     rep.run_bfs(&scn, if thorough { 6 } else { 4 }, Duration::from_secs(if thorough { 3000 } else { 50 }));
+    // the same with an SRV target that has capital letters (the address table is keyed in lower case)
+    let scn2 = Scn { horizon_ms: 2 * 3600 * 1000, host: "Office-Printer" };
+    rep.run_bfs(&scn2, if thorough { 5 } else { 3 }, Duration::from_secs(if thorough { 3000 } else { 50 }));
     rep.require("search-start-stop-sequences", "channels_checked");
     rep.require("search-start-stop-sequences", "search_ends_checked");
     rep.require("search-start-stop-sequences", "metrics_after_stop_checked");
